@@ -144,7 +144,8 @@ class World:
         except ticks.TickBudgetExceeded:
             raise Viol("time_bounded", f"{stage.split('(')[0]}:tick-budget", f"{stage}: more than {budget(n)} ticks for {n} characters delivered; root={root[:300]!r} docs={list(docs)}")
         except RecursionError as e:
-            raise Viol("never_raises", f"{stage.split('(')[0]}:RecursionError@{lib.innermost_repo_function(e, env.REPO)}", f"{stage} raised RecursionError; root={root[:300]!r}")
+            # (no innermost function in the signature: where the stack runs out depends on the depth at entry)
+            raise Viol("never_raises", f"{stage.split('(')[0]}:RecursionError", f"{stage} raised RecursionError; root={root[:300]!r} docs={list(docs)}")
         except Exception as e:
             raise Viol("never_raises", f"{stage.split('(')[0]}:{lib.ename(e)}@{lib.innermost_repo_function(e, env.REPO)}", f"{stage} raised {e!r}; entry={entry} options={opts} root={root[:400]!r} docs={ {k: str(v.get('text') or v.get('raw_hex'))[:80] for k, v in docs.items()} }")
         finally:
